@@ -340,8 +340,14 @@ def generate(seed, n_steps, kinds=("MG", "SMG", "CRG", "SCRG"), hist_len=120):
     return recs, alias, incoh
 
 
-def validate(records, workers=16, timeout=3000):
-    """TLC validates every record; returns (verdicts by id, stats)."""
+class _Agg:
+    def __init__(self):
+        self.distinct = self.generated = 0
+        self.wall = 0.0
+
+
+def _validate_chunk(args):
+    records, workers, timeout = args
     d = tempfile.mkdtemp(prefix="smg-trace-")
     try:
         path = os.path.join(d, "trace.ndjson")
@@ -350,12 +356,34 @@ def validate(records, workers=16, timeout=3000):
                 slim = {k: r[k] for k in ("id", "pre", "h", "op", "out", "ans", "post", "res")}
                 f.write(json.dumps(slim, separators=(",", ":")) + "\n")
         res = run_tlc("Trace_Edit", cfg="Trace_Edit.cfg", env={"OBS_FILE": path}, workers=workers,
-                      prefixes=("OK", "BAD"), timeout=timeout, heap="12g")
+                      prefixes=("OK", "BAD"), timeout=timeout, heap="8g")
     finally:
         shutil.rmtree(d, ignore_errors=True)
     common.tlc_ok(res, "Trace_Edit")
+    return res.lines, res.distinct, res.generated, res.wall
+
+
+def validate(records, workers=16, timeout=3000, chunk=15000):
+    """TLC validates every record; returns (verdicts by id, stats).  Large record sets are validated in chunks (one TLC
+    run parses its whole file into memory), two runs at a time."""
+    records = list(records)
+    chunks = [records[k:k + chunk] for k in range(0, len(records), chunk)] or [[]]
+    agg = _Agg()
+    lines = []
+    if len(chunks) == 1:
+        results = [_validate_chunk((chunks[0], workers, timeout))]
+    else:
+        import multiprocessing as mp
+        with mp.Pool(2) as pool:
+            results = pool.map(_validate_chunk, [(c, max(4, workers // 2), timeout) for c in chunks], chunksize=1)
+    for ls, d_, g_, w_ in results:
+        lines += ls
+        agg.distinct += d_
+        agg.generated += g_
+        agg.wall += w_
+    res = agg
     ok, bad = set(), {}
-    for pre, o in res.lines:
+    for pre, o in lines:
         if pre == "OK":
             ok.add(int(o))
         else:
